@@ -723,7 +723,7 @@ impl KeyWorld {
                     twin_answer = Some(v2);
                 }
             }
-            let before_snap = if ctx.collect_shapes && !self.cfg.has(O_CAP) { self.colls[ci].as_ref().unwrap().snapshot() } else { None };
+            let before_snap = if ctx.collect_shapes && !self.cfg.has(O_CAP) && self.model.len() <= 2000 { self.colls[ci].as_ref().unwrap().snapshot() } else { None };
             let before_n = before_snap.as_ref().map(|s| s.slots.len().saturating_sub(s.unused.len() + 1));
             if let Some(s) = before_snap.as_ref() {
                 // which removal path will the first lazy removal of this query take? (reach measure)
@@ -864,7 +864,7 @@ impl KeyWorld {
                 let (r, _) = call(ctx, &cfg, twin_name(name), "insert", "KIns", false, None, None, || tw.insert(key, val, t))?;
                 twin_ok = matches!(r, Called::Ok(_));
             }
-            if ctx.collect_shapes && !cfg.has(O_CAP) {
+            if ctx.collect_shapes && !cfg.has(O_CAP) && self.model.len() <= 2000 {
                 if let Some(s) = self.colls[ci].as_ref().unwrap().snapshot() {
                     // the insertion first removes expired nodes on its path, so this is the
                     // repair case only when nothing on the path is expired; count it as reach
